@@ -101,6 +101,8 @@ struct InterpreterEnv : public ScriptExecutionEnvironment {
     CScript successor_script;
     // the script the session started with was a scriptSig: its scriptPubKey has been reached as successor script
     bool scriptsig_ran;
+    // the script the session runs is the scriptSig of an output whose scriptPubKey is empty: there is no hand-over step
+    bool scriptsig_before_empty_scriptpubkey;
 
     // Taproot/tapscript support
     TaprootCommitmentEnv* tce;
